@@ -277,7 +277,7 @@ def stepCore (s : St) (op : String) (got : String) : StepResult St :=
           let ru := (net1.get? a).getD (Router.start 0)
           let s1 := { s with net := net1, sp := sp' }
           let s1 := if starts then
-              { setAseq s1 (a, b) sv with fid := sv, flights := ((a, b), flightsOf s (a, b) ++ [(sv, adv)]) :: s.flights.filter (·.1 != (a, b)) }
+              { setAseq s1 (a, b) sv with fid := sv, noPend := s.noPend.filter (· != (a, b)), flights := ((a, b), flightsOf s (a, b) ++ [(sv, adv)]) :: s.flights.filter (·.1 != (a, b)) }
             else s1
           { st := s1, expected := some (dumpRouter s.keys ru ++ s!" started={if starts then 1 else 0} ann=ok"),
             spec := specFails ++ annFails s!"r{a}" got, cov := [if starts then "snap-started" else "snap-not-newer"] }
@@ -296,7 +296,10 @@ def stepCore (s : St) (op : String) (got : String) : StepResult St :=
       let isLastS := iT == "last" || iT.toNat? == some (cnt - 1)
       let sp' := if got == "skip" then sp else
         disturb { sp with awaiting := if isLastS then sp.awaiting.filter (· != (a, b)) else sp.awaiting }
-      match idx.bind (fun i => fl[i]?) with
+      let gone := match idx with
+        | some i => i + 1 == fl.length && s.noPend.contains (a, b)
+        | none => false
+      match (if gone then none else idx.bind (fun i => fl[i]?)) with
       | some (sv, adv) =>
         if !(a < n && b < n) then { st := { s with sp := sp' }, expected := some "skip", spec := specFails } else
         let hasNbr := match s.net.get? a, s.net.get? b with
@@ -384,23 +387,39 @@ def stepRest (s : St) (op : String) (got : String) : StepResult St :=
     | "sweep" :: a :: wsT :: _ =>
       match a.toNat?, (wsT.splitOn ",").mapM String.toNat? with
       | some a, some ws =>
-        { r with st := { r.st with sp := setText { sp2 with copy := sp2.copy.filter fun c => !(c.1.1 == a && ws.contains c.1.2) } a (firstTok got) } }
+        let keep (c : (Nat × Nat) × String) : Bool := !(c.1.1 == a && ws.contains c.1.2)
+        let sp3 : SpecSt := { sp2 with copy := sp2.copy.filter keep, pendCopy := sp2.pendCopy.filter keep }
+        { r with st := { r.st with sp := setText sp3 a (firstTok got) } }
       | _, _ => r
     | kind :: a :: b :: _ =>
       match a.toNat?, b.toNat? with
       | some a, some b =>
         let sp3 := setText sp2 a (firstTok got)
         if kind == "dead" || kind == "fetchrace" then
-          { r with st := { r.st with sp := { sp3 with copy := sp3.copy.filter (·.1 != (a, b)) } } }
+          { r with st := { r.st with sp := { sp3 with copy := sp3.copy.filter (·.1 != (a, b)), pendCopy := sp3.pendCopy.filter (·.1 != (a, b)) } } }
+        else if kind == "reply" then
+          -- the reply to the latest fetch delivers the text captured when that fetch started
+          let cnt := ((sp.flightsN.find? (·.1 == (a, b))).map (·.2)).getD 0
+          let isLast := (op.splitOn " ")[3]? == some "last" || ((op.splitOn " ")[3]?.bind String.toNat?) == some (cnt - 1)
+          match isLast, sp3.pendCopy.find? (·.1 == (a, b)) with
+          | true, some (_, t) =>
+            { r with st := { r.st with sp := { sp3 with copy := ((a, b), t) :: sp3.copy.filter (·.1 != (a, b)),
+                                                        pendCopy := sp3.pendCopy.filter (·.1 != (a, b)) } } }
+          | _, _ => { r with st := { r.st with sp := sp3 } }
         else if kind == "fetch" || kind == "snap" then
           let started := parseField got "started" == some "1"
           let cur := (sp.copy.find? (·.1 == (a, b))).map (·.2)
           let tb := textOf sp b
           if started then
-            let copy' := match tb with
-              | some t => ((a, b), t) :: sp3.copy.filter (·.1 != (a, b))
-              | none => sp3.copy.filter (·.1 != (a, b))
-            { r with st := { r.st with sp := { sp3 with copy := copy' } } }
+            let upd (l : List ((Nat × Nat) × String)) := match tb with
+              | some t => ((a, b), t) :: l.filter (·.1 != (a, b))
+              | none => l.filter (·.1 != (a, b))
+            -- fetch: answered at once; snap: the content is received when the reply to this fetch arrives
+            if kind == "fetch" then
+              -- a newer fetch answered at once: replies to older fetches still in flight are stale from now on
+              { r with st := { r.st with sp := { sp3 with copy := upd sp3.copy, pendCopy := sp3.pendCopy.filter (·.1 != (a, b)),
+                                                          awaiting := sp3.awaiting.filter (· != (a, b)) } } }
+            else { r with st := { r.st with sp := { sp3 with pendCopy := upd sp3.pendCopy } } }
           else
             -- no fetch although what a holds is not what b serves now (b's advertisement changed, or b is a
             -- new instance after a restart, and the announcement did not get through as newer)
@@ -432,7 +451,8 @@ def step (s : St) (op : String) (got : String) : StepResult St :=
     let sp1 := if got == "skip" || staleS.isEmpty then sp else
       disturb { sp with nbr := sp.nbr.filter (fun p => sp.links.contains p),
                         awaiting := sp.awaiting.filter (fun p => sp.links.contains p),
-                        copy := sp.copy.filter (fun c => sp.links.contains c.1) }
+                        copy := sp.copy.filter (fun c => sp.links.contains c.1),
+                        pendCopy := sp.pendCopy.filter (fun c => sp.links.contains c.1) }
     let r := stepCore { s1 with sp := sp1 } "check" got
     { r with st := { r.st with sp := setTexts r.st.sp got },
              cov := (if staleS.isEmpty then ["tick-stable-links"] else ["tick-removes-stale"]) ++ r.cov }
@@ -483,9 +503,9 @@ def step (s : St) (op : String) (got : String) : StepResult St :=
       let specFails := if got == "skip" then [] else advFiniteFails s!"r{x}" got
       let sp1 := if got == "skip" then sp else
         setText (disturb { sp with nbr := sp.nbr.filter (·.1 != x), awaiting := sp.awaiting.filter (·.1 != x),
-                                    copy := sp.copy.filter (·.1.1 != x), flightsN := sp.flightsN.filter (·.1.1 != x) }) x (firstTok got)
+                                    copy := sp.copy.filter (·.1.1 != x), pendCopy := sp.pendCopy.filter (·.1.1 != x), flightsN := sp.flightsN.filter (·.1.1 != x) }) x (firstTok got)
       let r := Router.start id
-      { st := { s with net := s.net.setAt x r, aseq := s.aseq.filter (·.1.1 != x), flights := s.flights.filter (·.1.1 != x), sp := sp1 },
+      { st := { s with net := s.net.setAt x r, aseq := s.aseq.filter (·.1.1 != x), flights := s.flights.filter (·.1.1 != x), noPend := s.noPend.filter (·.1 != x), sp := sp1 },
         expected := some (dumpRouter s.keys r ++ " ann=ok"), spec := specFails, cov := ["restart"] }
     | none => { st := s, expected := some "bad-op" }
   | _ => stepRest s op got
